@@ -98,6 +98,10 @@ def key(k):
             else:
                 items.append(f"KSlice {zopt(it[1])} {zopt(it[2])} {zopt(it[3])}")
         return "(KBasic [" + "; ".join(items) + "])"
+    if k["t"] == "ellip":
+        def items_of(l):
+            return "[" + "; ".join(f"KInt {z(it[1])}" if it[0] == "i" else f"KSlice {zopt(it[1])} {zopt(it[2])} {zopt(it[3])}" for it in l) + "]"
+        return f"(KEllip {items_of(k['before'])} {items_of(k['after'])})"
     if k["t"] == "mask":
         bits = "[" + "; ".join("true" if b else "false" for b in k["bits"]) + "]"
         return f"(KMask {nat_list(k['mshape'])} {bits})"
